@@ -3,7 +3,7 @@
 //! records script + implementation output + oracle failures + input distribution.
 
 use std::{
-    collections::{BTreeMap, BTreeSet, HashSet},
+    collections::{BTreeMap, BTreeSet, HashMap, HashSet},
     io::Write,
 };
 
@@ -499,6 +499,93 @@ pub fn tmid(g: &mut Gen, r: &mut Rng, cases: usize) {
 }
 
 // ------------------------------------------------------------------------------------------------
+// T-deep: VERY deep trees (17..64 levels): chains of lt children, chains of high pages, zigzags
+// ------------------------------------------------------------------------------------------------
+
+pub fn tdeep(g: &mut Gen, r: &mut Rng, cases: usize) {
+    for case in 0..cases {
+        let mut r = r.fork(case as u64);
+        set_val_pos(r.below(3) as u8);
+        let n = [9usize, 12, 16, 20, 32, 32][r.below(6) as usize];
+        let base = [16u8, 2, 4, 255, 3][r.below(5) as usize];
+        let maxl = (2 * n as u32 - 1).min(64);
+        // the spine: m keys on m DISTINCT levels
+        let m = (17 + r.below(30) as u32).min(maxl) as usize;
+        let mut levels: Vec<u32> = (0..maxl).collect();
+        r.shuffle(&mut levels);
+        levels.truncate(m);
+        let shape = r.below(4);
+        match shape {
+            0 => levels.sort(),                          // ascending with the key: a chain of lt children
+            1 => { levels.sort(); levels.reverse() }     // descending: a chain of high pages
+            2 => {                                       // zigzag: lt, high, lt, high ...
+                levels.sort();
+                levels.reverse();
+                let mut lo = vec![];
+                let mut hi = vec![];
+                for (i, l) in levels.iter().enumerate() {
+                    if i % 2 == 0 { lo.push(*l) } else { hi.push(*l) }
+                }
+                hi.reverse();
+                lo.extend(hi);
+                levels = lo;
+            }
+            _ => {}                                      // random permutation
+        }
+        // fillers on random levels between the spine keys
+        let fill = r.below(12) as usize;
+        let mut all: Vec<(Vec<u8>, u32)> = vec![];
+        for (i, l) in levels.iter().enumerate() {
+            all.push((vec![0x10 + i as u8, 0x80], *l));
+        }
+        for j in 0..fill {
+            let pos = r.below(m as u64) as u8;
+            all.push((vec![0x10 + pos, 0x81 + j as u8], r.below(maxl as u64) as u32));
+        }
+        let kds: Vec<Vec<u8>> = all.iter().enumerate().map(|(i, (_, l))| digest_for_level(*l, base, n, (i as u8).wrapping_mul(2))).collect();
+        let mut order: Vec<usize> = (0..all.len()).collect();
+        match r.below(3) {
+            0 => {}
+            1 => order.reverse(),
+            _ => r.shuffle(&mut order),
+        }
+        g.op(format!("new 0 {base} n={n}"));
+        g.cases += 1;
+        g.note(&format!("tdeep-shape{shape}"));
+        for (step, &i) in order.iter().enumerate() {
+            g.op(format!("ups 0 {} {} {}", xtok(&all[i].0), xtok(&kds[i]), xtok(&val_digest(1, n))));
+            if r.chance(1, 4) {
+                g.op("hash 0".into());
+            }
+            if step % 9 == 8 {
+                g.op("iter 0".into());
+            }
+        }
+        g.op("hash 0".into());
+        g.op("ser 0".into());
+        let tr = g.op("trav 0 -".into());
+        g.shape(&tr);
+        g.op("iter 0".into());
+        for _ in 0..4 {
+            g.op(format!("trav 0 {}", r.below(6 * all.len() as u64)));
+        }
+        // a diverged clone: overwrite / add deep inside, diff both ways
+        g.op("clone 1 0".into());
+        for _ in 0..1 + r.below(3) {
+            let i = r.below(all.len() as u64) as usize;
+            g.op(format!("ups 1 {} {} {}", xtok(&all[i].0), xtok(&kds[i]), xtok(&val_digest(2, n))));
+        }
+        g.op("hash 1".into());
+        g.op("ser 1".into());
+        g.op("iter 1".into());
+        g.op("diff2 0 1".into());
+        if case < 2 {
+            g.sample(format!("tdeep case {case}: spine of {m} levels (shape {shape}), {fill} fillers, n={n} base={base}"));
+        }
+    }
+}
+
+// ------------------------------------------------------------------------------------------------
 // D-small: all ordered pairs of contents over U keys x all level assignments
 // ------------------------------------------------------------------------------------------------
 
@@ -623,6 +710,214 @@ pub fn drand(g: &mut Gen, r: &mut Rng, cases: usize, max_keys: usize) {
             g.cases += 1;
             g.note("diverged-clone");
             g.shapes.insert(fnv(&out2) ^ (case as u64) << 8);
+        }
+    }
+}
+
+// ------------------------------------------------------------------------------------------------
+// D-wide: diffs of WIDE trees: a root (or mid-level) page with 130..400 children, so that one diff
+// records hundreds of consistent / inconsistent ranges; few edits at chosen positions
+// ------------------------------------------------------------------------------------------------
+
+pub fn dwide(g: &mut Gen, r: &mut Rng, cases: usize, max_parents: usize) {
+    for case in 0..cases {
+        let mut r = r.fork(case as u64);
+        set_val_pos(r.below(3) as u8);
+        let n = [3usize, 16, 20][r.below(3) as usize];
+        let base = 16u8;
+        // `np` keys on the top level, each followed by 1..3 keys on level 0 (its right neighbour's lt child)
+        let np = 130 + r.below(max_parents as u64 - 129) as usize;
+        let top = 1 + r.below(2) as u32;
+        let mut keys: Vec<(Vec<u8>, u32)> = vec![];
+        for i in 0..np {
+            let leafs = 1 + r.below(3) as usize;
+            for j in 0..leafs {
+                keys.push((vec![(i >> 8) as u8, i as u8, 1 + j as u8], if top == 2 && r.chance(1, 9) { 1 } else { 0 }));
+            }
+            keys.push((vec![(i >> 8) as u8, i as u8, 0x80], top));
+        }
+        // trailing leaf keys (the root's high page)
+        if r.chance(2, 3) {
+            keys.push((vec![0xff, 0xff, 1], 0));
+        }
+        let nk = keys.len();
+        let kds: Vec<Vec<u8>> = keys.iter().enumerate().map(|(i, (_, l))| digest_for_level(*l, base, n, (i as u8).wrapping_mul(2))).collect();
+        g.op(format!("new 0 {base} n={n}"));
+        g.cases += 1;
+        let mut order: Vec<usize> = (0..nk).collect();
+        if r.chance(1, 2) {
+            r.shuffle(&mut order);
+        }
+        for &i in &order {
+            g.op(format!("ups 0 {} {} {}", xtok(&keys[i].0), xtok(&kds[i]), xtok(&val_digest(1, n))));
+        }
+        g.op("hash 0".into());
+        g.op("ser 0".into());
+        // peers: clones with a few edits at chosen positions (first pages / around the 128th / 256th page / last pages)
+        for variant in 0..3u64 {
+            let t = 1 + variant;
+            g.op(format!("clone {t} 0"));
+            let edits = 1 + r.below(3);
+            for _ in 0..edits {
+                let i = match r.below(5) {
+                    0 => r.below(8.min(nk as u64)) as usize,
+                    1 => nk - 1 - r.below(8.min(nk as u64)) as usize,
+                    2 => (nk * 128 / np + r.below(12) as usize).min(nk - 1),
+                    3 => (nk * 256 / np.max(257) + r.below(12) as usize).min(nk - 1),
+                    _ => r.below(nk as u64) as usize,
+                };
+                if r.chance(1, 4) {
+                    // a key only this peer has
+                    let mut k = keys[i].0.clone();
+                    k.push(7);
+                    g.op(format!("ups {t} {} {} {}", xtok(&k), xtok(&digest_for_level(0, base, n, 0x55)), xtok(&val_digest(2, n))));
+                } else {
+                    g.op(format!("ups {t} {} {} {}", xtok(&keys[i].0), xtok(&kds[i]), xtok(&val_digest(2, n))));
+                }
+            }
+            g.op(format!("hash {t}"));
+            let out = g.op(format!("diff2 0 {t}"));
+            g.shapes.insert(fnv(&out) ^ (case as u64) << 4 ^ variant);
+            g.cases += 1;
+        }
+        if case < 2 {
+            g.sample(format!("dwide case {case}: {np} top-level keys on level {top}, {nk} keys, n={n}"));
+        }
+    }
+}
+
+// ------------------------------------------------------------------------------------------------
+// T-keylen: LONG keys (lengths around 32, 64, 128, 224, 256, 512 and long common prefixes) in
+// small deep trees, so that every byte of a key reaching the page hasher / comparisons is tied
+// ------------------------------------------------------------------------------------------------
+
+pub fn tkeylen(g: &mut Gen, r: &mut Rng, cases: usize) {
+    const LENS: [usize; 24] = [0, 1, 7, 8, 9, 31, 32, 33, 63, 64, 65, 127, 128, 129, 207, 208, 209, 223, 224, 225, 255, 256, 257, 600];
+    let base = 16u8;
+    for case in 0..cases {
+        let mut r = r.fork(case as u64);
+        set_val_pos(r.below(3) as u8);
+        let n = [16usize, 3, 32][r.below(3) as usize];
+        let nk = 4 + r.below(5) as usize;
+        let nlev = 2 + r.below(3) as u32;
+        let mode = r.below(3); // 0: distinct first byte + padding; 1: long common prefix, differ at the END; 2: prefixes of one another
+        let keys: Vec<Vec<u8>> = (0..nk)
+            .map(|i| {
+                let len = LENS[r.below(LENS.len() as u64) as usize];
+                match mode {
+                    0 => {
+                        let mut k = vec![0x20 + i as u8];
+                        k.extend((1..len).map(|j| (j % 251) as u8));
+                        k
+                    }
+                    1 => {
+                        let len = len.max(2);
+                        let mut k: Vec<u8> = (0..len - 1).map(|j| (j % 7) as u8).collect();
+                        let l0 = LENS[(case + 5) % LENS.len()].max(2) - 1;
+                        k.resize(l0, 3);
+                        k.push(0x20 + i as u8);
+                        k
+                    }
+                    _ => vec![0x41; (i * 37) % 300 + i],
+                }
+            })
+            .collect();
+        let kds: Vec<Vec<u8>> = (0..nk).map(|i| digest_for_level(r.below(nlev as u64) as u32, base, n, i as u8 * 2)).collect();
+        let mut order: Vec<usize> = (0..nk).collect();
+        r.shuffle(&mut order);
+        g.op(format!("new 0 {base} n={n}"));
+        g.op(format!("new 1 {base} n={n}"));
+        g.cases += 1;
+        g.note(&format!("tkeylen-mode{mode}"));
+        for &i in &order {
+            g.op(format!("ups 0 {} {} {}", xtok(&keys[i]), xtok(&kds[i]), xtok(&val_digest(1, n))));
+            // tree 1: same keys, ONE of them with another value / missing
+            if i != order[0] {
+                g.op(format!("ups 1 {} {} {}", xtok(&keys[i]), xtok(&kds[i]), xtok(&val_digest(1, n))));
+            } else if r.chance(1, 2) {
+                g.op(format!("ups 1 {} {} {}", xtok(&keys[i]), xtok(&kds[i]), xtok(&val_digest(2, n))));
+            }
+            if r.chance(1, 3) {
+                g.op("hash 0".into());
+            }
+        }
+        g.op("hash 0".into());
+        g.op("hash 1".into());
+        g.op("ser 0".into());
+        let tr = g.op("trav 0 -".into());
+        g.shape(&tr);
+        g.op("iter 0".into());
+        g.op("diff2 0 1".into());
+        if case < 2 {
+            g.sample(format!("tkeylen case {case}: mode {mode}, key lengths {:?}", keys.iter().map(|k| k.len()).collect::<Vec<_>>()));
+        }
+    }
+}
+
+// ------------------------------------------------------------------------------------------------
+// D-near: pairs of real trees whose ROOT DIGESTS AGREE ON A 4-BYTE WINDOW (found by a birthday
+// search over one contested value, on the real implementation): a diff / root comparison that
+// looks at part of a digest only is exposed on real trees
+// ------------------------------------------------------------------------------------------------
+
+pub fn dnear(g: &mut Gen, r: &mut Rng, trees: usize) {
+    use crate::tree::{make_tree, Ctor, KeyKind, Kind};
+    let n = 16usize;
+    let base = 16u8;
+    let nk = 3 + r.below(4) as usize;
+    let keys: Vec<Vec<u8>> = (0..nk).map(|i| vec![0x30 + i as u8]).collect();
+    let kds: Vec<Vec<u8>> = (0..nk).map(|i| digest_for_level(r.below(3) as u32, base, n, i as u8 * 2)).collect();
+    let contested = r.below(nk as u64) as usize;
+    let salt = r.below(1 << 30);
+    let vd_of = |j: u64| -> Vec<u8> {
+        let mut d = vec![0xa0u8; n];
+        d[..8].copy_from_slice(&(j ^ (salt << 32)).to_le_bytes());
+        d
+    };
+    // root digest of every candidate
+    let mut roots: Vec<[u8; 16]> = Vec::with_capacity(trees);
+    for j in 0..trees as u64 {
+        let mut t = make_tree(base, n, &Kind::Table, &Ctor::Builder, &KeyKind::Bytes).unwrap();
+        for i in 0..nk {
+            let vd = if i == contested { vd_of(j) } else { val_digest(1, n) };
+            t.ups(&keys[i], &kds[i], &vd, None).unwrap();
+        }
+        roots.push(t.hash());
+    }
+    // pairs agreeing on bytes [w, w+4)
+    let mut found: Vec<(usize, usize, usize)> = vec![];
+    for w in 0..=12usize {
+        let mut seen: HashMap<[u8; 4], usize> = HashMap::new();
+        let mut per = 0;
+        for (j, h) in roots.iter().enumerate() {
+            let k: [u8; 4] = h[w..w + 4].try_into().unwrap();
+            if let Some(&j0) = seen.get(&k) {
+                if per < 2 {
+                    found.push((w, j0, j));
+                    per += 1;
+                }
+            } else {
+                seen.insert(k, j);
+            }
+        }
+    }
+    g.note(&format!("dnear-pairs:{}", found.len().min(30)));
+    for (w, a, b) in found {
+        g.op(format!("new 0 {base} n={n}"));
+        g.op(format!("new 1 {base} n={n}"));
+        for i in 0..nk {
+            let (va, vb) = if i == contested { (vd_of(a as u64), vd_of(b as u64)) } else { (val_digest(1, n), val_digest(1, n)) };
+            g.op(format!("ups 0 {} {} {}", xtok(&keys[i]), xtok(&kds[i]), xtok(&va)));
+            g.op(format!("ups 1 {} {} {}", xtok(&keys[i]), xtok(&kds[i]), xtok(&vb)));
+        }
+        g.op("hash 0".into());
+        g.op("hash 1".into());
+        let out = g.op("diff2 0 1".into());
+        g.cases += 1;
+        g.shapes.insert(fnv(&out) ^ w as u64);
+        g.note(&format!("dnear-window:{w}"));
+        if g.samples.len() < 2 {
+            g.sample(format!("dnear: root digests {} / {} agree on bytes {w}..{}", hex(&roots[a]), hex(&roots[b]), w + 4));
         }
     }
 }
